@@ -374,6 +374,7 @@ def obs_key(o):
 
 # ------------------------------------------------------------------ the check
 def run(ctx):
+    C.config_matrix(ctx["report"], ctx["rundir"], "C14", ["x = 5; x + 1", "pi = 3; 2 * pi", "x = 5; sqr(x)", "x = 5; y = x; x = 6; y", "e", "true + 1", "m = 2; 3 m", "sin = 2; sin(0)", "x = C(5,2); x*2"])
     # --- coordinator: a reassigned constant is read inside comprehension bodies and conditions as well,
     #     and a variable holding a lazy value keeps its value after it was displayed
     _items = [(["pi = 3", "{pi*2 : k in {0}}"], "A:[I:6]", "reassigned pi inside a comprehension body"),
